@@ -25,6 +25,7 @@ def line(a, b, x_start=0):
     def fun(x_hat):
         return (x_hat - x_start) * direct + a
 
+    fun.straight = True
     return fun, norm
 
 
